@@ -238,3 +238,78 @@ def mul_concat(chk, repo, clause):
                     ok, det = False, f'product field gets tilt = {fmt(t)}'
     chk.ob(clause, 'E-ownership', fm.key, 'product carries a new list with both operands\' tilts', ok and n > 0,
            det or 'tilt = self.tilt + other.tilt (new list)', fm.loc())
+
+
+def shape_scan(chk, repo, clause, modules, skip=()):
+    """Package-wide symbolic shape inference (engine U, axis part): in every
+    function of the given modules, no operation may combine two *different*
+    dimensions of one and the same array (they coincide only for square
+    inputs).  Parameters the function itself treats as 2-D (`x.shape[1]`,
+    `r, c = x.shape`) are declared 2-D; documented scalars are scalars."""
+    import ast as _ast
+    from ..effects import doc_param_kinds
+    from ..shapes import Shapes
+    from ..state import PathLimit
+    from ..interp import Interp
+    from ..effects import param_types
+    n = 0
+    for f in sorted(repo.all_functions(), key=lambda f: f.key):
+        if f.module.name not in modules or f.key in skip:
+            continue
+        decl = {}
+        two_d = set()
+        idx_seen = {}
+        for node in _ast.walk(f.node):
+            if isinstance(node, _ast.Subscript) and isinstance(node.value, _ast.Attribute) and node.value.attr == 'shape' \
+                    and isinstance(node.value.value, _ast.Name) and isinstance(node.slice, _ast.Constant) \
+                    and node.slice.value in (0, 1):
+                idx_seen.setdefault(node.value.value.id, set()).add(node.slice.value)
+            if isinstance(node, _ast.Assign) and isinstance(node.value, _ast.Attribute) and node.value.attr == 'shape' \
+                    and isinstance(node.value.value, _ast.Name) and isinstance(node.targets[0], _ast.Tuple) \
+                    and len(node.targets[0].elts) == 2:
+                two_d.add(node.value.value.id)
+        two_d |= {k for k, v in idx_seen.items() if v == {0, 1}}
+        # arrays that are also used as cubes (x.shape[2]) are not declared
+        for node in _ast.walk(f.node):
+            if isinstance(node, _ast.Subscript) and isinstance(node.value, _ast.Attribute) and node.value.attr == 'shape' \
+                    and isinstance(node.value.value, _ast.Name) and isinstance(node.slice, _ast.Constant) \
+                    and node.slice.value not in (0, 1):
+                two_d.discard(node.value.value.id)
+        # a rank test on the name means its rank varies: do not declare it
+        for node in _ast.walk(f.node):
+            if isinstance(node, _ast.Attribute) and node.attr == 'ndim' and isinstance(node.value, _ast.Name):
+                two_d.discard(node.value.id)
+        params = set(f.param_names())
+        for name in two_d & params:
+            sh = nf.attr(nf.sym(name), 'shape')
+            decl[('sym', name)] = (nf.index(sh, Poly.const(0)), nf.index(sh, Poly.const(1)))
+        for name, kind in doc_param_kinds(f).items():
+            if kind == 'scalar' and name in params and ('sym', name) not in decl:
+                decl[('sym', name)] = ()
+        if not any(len(v) == 2 for v in decl.values()):
+            continue
+        try:
+            paths = Interp(repo, types=param_types(repo, f), max_paths=512).run(f)
+        except PathLimit:
+            continue
+        sh = Shapes(decl)
+        for p in paths:
+            vals = []
+            if p.status == 'return' and p.ret is not None:
+                vals += list(p.ret.items) if isinstance(p.ret, Tup) else [p.ret]
+            for e in p.events:
+                if e.kind == 'write' and isinstance(e.data.get('value'), Poly):
+                    vals.append(e.data['value'])
+                if e.kind == 'call':
+                    vals += [v for v in (e.data.get('bound') or {}).values() if isinstance(v, Poly)]
+                    vals += [v for v in (e.data.get('args') or []) if isinstance(v, Poly)]
+            for v in vals:
+                try:
+                    sh.of(v, where=f.key)
+                except RecursionError:
+                    pass
+        n += 1
+        cl = sorted(set(sh.clashes))
+        chk.ob(clause, 'U-shape-scan', f.key, 'no operation mixes two different axes of one array', not cl,
+               '; '.join(cl[:3]) if cl else f'declared 2-D: {sorted(k[1] for k, v in decl.items() if len(v) == 2)}', f.loc())
+    return n
